@@ -278,6 +278,8 @@ impl Ctx {
                 let _ = write!(o, "{}", k >> 11); // fits in a double
             }
             o.push(']');
+        }
+        if self.layouts.len() <= 20000 {
             o.push_str(",\"layout_keys\":[");
             for (i, k) in self.layouts.iter().enumerate() {
                 if i > 0 {
